@@ -216,6 +216,66 @@ def translate_uniq(src_path, qualname, params, subst):
     return enc + "\n\n" + lev, {'encode': ['d', 'x'], 'levels': ['maxdepth']}
 
 
+def _c08():
+    """the expression / range helpers of targets/C08.py (same directory)"""
+    import importlib.util
+    here = os.path.dirname(os.path.abspath(__file__))
+    spec = importlib.util.spec_from_file_location('targets_C08_helpers', os.path.join(here, 'C08.py'))
+    m = importlib.util.module_from_spec(spec)
+    spec.loader.exec_module(m)
+    return m
+
+
+def translate_export_leaf(src_path, leaf):
+    """`regLevels maxdepth`: the range of the level loop of write_reg (first `for … in range(…)` of the function, whose
+    body must be a loop over `self.pixeldict[<level>]`);  `mocOrderOf maxdepth`: the value written to the MOCORDER card
+    of write_fits (`…header['MOCORDER'] = (<value>, <comment>)`, exactly one such assignment)."""
+    h = _c08()
+    tree = ast.parse(open(src_path).read())
+    if leaf == 'regLevels':
+        fn = py2lean.find_function(tree, 'Region.write_reg')
+        loops = h.range_loops(fn)
+        if len(loops) != 1 or not isinstance(loops[0].target, ast.Name):
+            raise Untranslatable("write_reg: expected exactly one loop over the levels")
+        d = loops[0].target.id
+        level = f"self.pixeldict[{d}]"
+        aliases = {level}
+        inner = [s for s in loops[0].body if isinstance(s, ast.For)]
+        rest = [s for s in loops[0].body if not isinstance(s, ast.For)]
+        for s in rest:
+            txt = " ".join(ast.unparse(s).split())
+            if isinstance(s, ast.Assign) and len(s.targets) == 1 and isinstance(s.targets[0], ast.Name):
+                if ast.unparse(s.value) == level:
+                    aliases.add(s.targets[0].id)              # pixels = self.pixeldict[d]
+                continue                                      # other temporaries (nside = 2**d): not part of this leaf
+            if isinstance(s, ast.If) and not s.orelse and len(s.body) == 1 and isinstance(s.body[0], ast.Continue) \
+                    and ast.unparse(s.test) in {f"not {a}" for a in aliases} | {f"len({a}) == 0" for a in aliases}:
+                continue                                      # skipping an empty level writes nothing less
+            if isinstance(s, ast.Expr) and isinstance(s.value, ast.Call) and txt.startswith(('log.', 'logging.')):
+                continue
+            raise Untranslatable("write_reg: statement beside the pixel loop: " + txt[:50])
+        if len(inner) != 1 or ast.unparse(inner[0].iter) not in aliases or inner[0].orelse:
+            raise Untranslatable("write_reg: the level loop does not iterate over self.pixeldict[<level>]")
+        for n in ast.walk(inner[0]):
+            if isinstance(n, (ast.Continue, ast.Break)):
+                raise Untranslatable("write_reg: continue/break inside the pixel loop")
+        code = h.tr_range(loops[0].iter, {})
+        return f"def regLevels (maxdepth : Nat) : List Nat :=\n  {code}", {'regLevels': []}
+    if leaf == 'mocOrderOf':
+        fn = py2lean.find_function(tree, 'Region.write_fits')
+        hits = [n for n in ast.walk(fn) if isinstance(n, ast.Assign) and len(n.targets) == 1
+                and isinstance(n.targets[0], ast.Subscript) and isinstance(n.targets[0].slice, ast.Constant)
+                and n.targets[0].slice.value == 'MOCORDER']
+        if len(hits) != 1:
+            raise Untranslatable("write_fits: expected exactly one assignment of the MOCORDER card")
+        v = hits[0].value
+        if isinstance(v, ast.Tuple) and len(v.elts) >= 1:
+            v = v.elts[0]
+        code = h.tr_expr(v, {}, 'N')
+        return f"def mocOrderOf (maxdepth : Nat) : Nat :=\n  {code}", {'mocOrderOf': []}
+    raise Untranslatable(f"unknown leaf {leaf}")
+
+
 def _install():
     """route `Region._uniq` (and nothing else) through translate_uniq in the module that is loading us"""
     for depth in range(1, 16):
@@ -229,6 +289,13 @@ def _install():
                 return
 
             def wrapped(src_path, qualname, outputs, mode, params, subst=None, calls=None, returns=None, **kw):
+                if outputs and str(outputs[0][0]).startswith('__c12__'):
+                    try:
+                        return translate_export_leaf(src_path, outputs[0][1])
+                    except Untranslatable:
+                        raise
+                    except Exception as e:
+                        raise Untranslatable(f"{qualname}: {type(e).__name__}: {e}")
                 if qualname == 'Region._uniq':
                     return translate_uniq(src_path, qualname, params, subst)
                 return orig(src_path, qualname, outputs, mode, params, subst, calls, returns=returns, **kw)
@@ -247,5 +314,13 @@ TARGETS = [
          translator=translate_uniq,
          fallback={'encode': 'def encode (d : Nat) (x : Nat) : Nat := Aegean.Model.C12.encodeHand d x',
                    'levels': 'def levels (maxdepth : Nat) : List Nat := Aegean.Model.C12.levelsHand maxdepth'},
+         fallback_imports=['Aegean.Model.C12Hand']),
+    dict(file='AegeanTools/regions.py', func='Region.write_reg', mode='int', params={'maxdepth': 'N'},
+         subst={'self.maxdepth': 'maxdepth'}, outputs=[('__c12__regLevels', 'regLevels')],
+         fallback={'regLevels': 'def regLevels (maxdepth : Nat) : List Nat := Aegean.Model.C12.regLevelsHand maxdepth'},
+         fallback_imports=['Aegean.Model.C12Hand']),
+    dict(file='AegeanTools/regions.py', func='Region.write_fits', mode='int', params={'maxdepth': 'N'},
+         subst={'self.maxdepth': 'maxdepth'}, outputs=[('__c12__mocOrderOf', 'mocOrderOf')],
+         fallback={'mocOrderOf': 'def mocOrderOf (maxdepth : Nat) : Nat := Aegean.Model.C12.mocOrderHand maxdepth'},
          fallback_imports=['Aegean.Model.C12Hand']),
 ]
